@@ -815,7 +815,10 @@ pub static C10: PropDef = PropDef {
     id: "C10",
     rule: "state histories x predicate subsets (salted per-mille threshold on the key id) x mutation by the predicate \
            x early-drop point, for HashMap (8/15), HashTable (4/15) and HashSet (1/5); non-trivial = extract_if with a subset neither \
-           empty nor full dropped strictly inside its selection, or drain dropped strictly inside",
+           empty nor full dropped strictly inside its selection, or drain dropped strictly inside (drains are also \
+           consumed through fold / for_each / count); one program in fifteen runs on the element-layout family (zero-sized, \
+           over-aligned, large) with extract_if answers that follow a bit pattern by call index; one case in 12 500 holds \
+           65 536 .. 136 000 elements (predicate call counts of retain / extract_if, drain().count())",
     level: "exploration",
     cases_quick: 60_000,
     cases_thorough: 1_500_000,
@@ -1033,9 +1036,13 @@ fn c13_nontrivial(c: &Case, o: &Outcome) -> bool {
 pub static C13: PropDef = PropDef {
     id: "C13",
     rule: "long insert/remove/lookup histories (plain and entry forms, never reserve/extend/with_capacity) with the \
-           live count capped at n in 1..300 and removal patterns FIFO / LIFO / random / clustered-by-bucket / \
-           alternating, all hash plans, an absent-key lookup after every removal; oracle: allocation_size() <= \
-           allocation_size of with_capacity(4 * peak live) at every step, an EMPTY slot always exists and growth_left \
+           live count capped at n in 1..300 (a third of the caps exactly a table capacity) and removal patterns FIFO / \
+           LIFO / random / clustered-by-bucket / alternating / fill-then-remove-everything, bulk removals (remove_all_but, \
+           drain, clear, retain), clone-and-continue, all hash plans, an absent-key lookup after every removal; one program \
+           in six is a HashTable program (find / find_entry / entry / iter_hash of absent hashes on tombstone-saturated \
+           tables, termination only); oracle: allocation_size() <= \
+           allocation_size of with_capacity(4 * peak live) at every step, an insert into a table at most half full of live \
+           elements does not enlarge the allocation, an EMPTY slot always exists and growth_left \
            cannot consume the last one, per-operation watchdog; non-trivial = at least 20 x n basic operations and \
            at least one in-place rehash or tombstone reuse",
     level: "exploration",
